@@ -15,7 +15,7 @@ import (
 )
 
 var c02Forced = []string{"bin.plus", "bin.minus", "bin.mult", "bin.div", "bin.intdiv", "bin.mod", "bin.bitand", "bin.bitor", "bin.bitxor", "bin.shl", "bin.shr",
-	"un.minus", "un.tilde", "un.bang", "case.else", "case.noelse", "null.operand", "item.star", "ref.path", "ref.path.bare", "ref.missing", "from.alias", "where", "opt.pg", "naming.alias-unqualified", "naming.table-qualified", "row.envelope", "ref.range"}
+	"un.minus", "un.tilde", "un.bang", "case.else", "case.noelse", "null.operand", "item.star", "ref.path", "ref.path.bare", "ref.missing", "from.alias", "where", "opt.pg", "naming.alias-unqualified", "naming.table-qualified", "row.envelope", "ref.range", "source.inner-arrays", "column.non-ascii"}
 
 func init() {
 	fw.Register(&fw.Prop{
@@ -30,7 +30,7 @@ func init() {
 			"bit operators and ~ are asserted on non-negative integers within 2^53 with Go int64 semantics; shift counts 0..62",
 			"every non-column item is aliased; -0 and +0 are equal",
 		},
-		Floor:         append([]string{"item.bare", "item.aliased", "lit.str", "lit.null", "nullresult"}, c02Forced...),
+		Floor:         append([]string{"item.bare", "item.aliased", "lit.str", "lit.null", "nullresult", "source.inner-arrays.no-where"}, c02Forced...),
 		MinNontrivial: 50,
 		Phases: []fw.Phase{
 			{Name: "proj", N: func(t fw.Tier) int { return pick(t, 16000, 500000) }, Run: c02Proj},
@@ -122,7 +122,7 @@ func c02Proj(c *fw.Case) {
 			items = append(items, gen.SelectItem{E: e, Alias: gen.AliasN(i)})
 		default:
 			eg.Force = ""
-			if f != "" && f != "from.alias" && f != "where" && !strings.HasPrefix(f, "naming.") && f != "opt.pg" {
+			if f != "" && f != "from.alias" && f != "where" && !strings.HasPrefix(f, "naming.") && f != "opt.pg" && f != "source.inner-arrays" && f != "column.non-ascii" {
 				eg.Force = f
 			}
 			items = append(items, gen.SelectItem{E: eg.Gen(), Alias: gen.AliasN(i)})
@@ -177,6 +177,16 @@ func c02Proj(c *fw.Case) {
 		ro.ColText = map[string]string{"ar_tail": "`ar[(1:end)]`"}
 		feats = append(feats, "ref.range")
 	}
+	innerArrays := !envelope && !useRange && alias == "" && qualifier == "" && (force == "source.inner-arrays" || (force == "" && c.Chance(0.08)))
+	if innerArrays && force == "source.inner-arrays" && c.Idx%2 == 0 {
+		where = nil
+	}
+	// keys with letters beyond ASCII, named plainly or with a qualifier
+	var nonASCII map[string]string
+	if !envelope && !useRange && (force == "column.non-ascii" || (force == "" && c.Chance(0.08))) {
+		nonASCII = map[string]string{"n2": "numéro", "s1": "prénom", "n3": "größe"}
+		feats = append(feats, "column.non-ascii")
+	}
 	// a share of the cases is spelled with double-quoted identifiers and run
 	// under PostgresEscapingDialect (the hostile literals hold quotes of every
 	// kind and backslashes): the values are what they are without the option
@@ -185,6 +195,21 @@ func c02Proj(c *fw.Case) {
 		ro.Quote = gen.QDouble
 		opts = append(opts, genql.PostgresEscapingDialect())
 		feats = append(feats, "opt.pg")
+	}
+	if len(nonASCII) > 0 {
+		if ro.ColText == nil {
+			ro.ColText = map[string]string{}
+		}
+		for from, to := range nonASCII {
+			text := "`" + to + "`"
+			if ro.Quote == gen.QDouble {
+				text = `"` + to + `"`
+			}
+			if qualifier != "" {
+				text = qualifier + "." + text
+			}
+			ro.ColText[from] = text
+		}
 	}
 	sql := "SELECT " + gen.RenderItems(items, ro) + " FROM t1"
 	if alias != "" {
@@ -207,7 +232,8 @@ func c02Proj(c *fw.Case) {
 	// reference
 	var want []any
 	nullResult := false
-	for _, row := range t.Rows {
+	var wantOf []int // per output row: index of its source row
+	for ri, row := range t.Rows {
 		env := ref.Env{Row: row}
 		if ar, ok := row["ar"].([]any); ok && useRange {
 			// the reference reads the tail under a name of its own
@@ -264,12 +290,71 @@ func c02Proj(c *fw.Case) {
 			out[key] = v
 		}
 		want = append(want, out)
+		wantOf = append(wantOf, ri)
 	}
 	if nullResult {
 		feats = append(feats, "nullresult", "null.operand")
 	}
 	doc := DocOf(t)
+	if len(nonASCII) > 0 {
+		// the document and the expected rows carry the keys under their real names
+		doc = renameKeys(val.Copy(doc), nonASCII).(map[string]any)
+		for i := range want {
+			want[i] = renameKeys(val.Copy(want[i]), nonASCII)
+		}
+	}
+	var chunks [][2]int
+	if innerArrays {
+		// the table arrives as inner arrays of a fan-out path: grp.t1 over
+		// [{t1: rows 0..a}, {t1: rows a..b}, ...]; the result has that nesting
+		rows := doc["t1"].([]any)
+		var grp []any
+		for at := 0; at < len(rows) || len(grp) == 0; {
+			n := c.Intn(4)
+			if at+n > len(rows) {
+				n = len(rows) - at
+			}
+			grp = append(grp, map[string]any{"t1": rows[at : at+n : at+n]})
+			chunks = append(chunks, [2]int{at, at + n})
+			at += n
+			if n == 0 && at >= len(rows) {
+				break
+			}
+		}
+		doc = map[string]any{"grp": grp}
+		sql = strings.Replace(sql, " FROM t1", " FROM grp.t1", 1)
+		feats = append(feats, "source.inner-arrays")
+		if where == nil {
+			feats = append(feats, "source.inner-arrays.no-where")
+		}
+	}
 	o := Run(doc, sql, opts...)
+	if innerArrays && o.OK() {
+		// same nesting, then judged row by row like a flat result
+		bad := len(o.Rows) != len(chunks)
+		var flat []any
+		for i := 0; !bad && i < len(chunks); i++ {
+			inner, ok := o.Rows[i].([]any)
+			n := 0
+			for _, ri := range wantOf {
+				if ri >= chunks[i][0] && ri < chunks[i][1] {
+					n++
+				}
+			}
+			if !ok || len(inner) != n {
+				bad = true
+				break
+			}
+			flat = append(flat, inner...)
+		}
+		if bad {
+			c.Feature(feats...)
+			c.Violate("nesting", fmt.Sprintf("the result of a query over %d inner arrays does not have their nesting (or an inner result has the wrong length): %s", len(chunks), short(val.Canon(o.Rows), 300)),
+				map[string]any{"sql": sql, "doc": doc, "expected_flat": want, "chunks": chunks, "observed": o.Describe()})
+			return
+		}
+		o.Rows = flat
+	}
 	c.Feature(feats...)
 	c.Sample(map[string]any{"sql": sql, "rows_in": len(t.Rows), "rows_out": len(want), "first_expected": first(want)})
 	detail := func() map[string]any {
@@ -305,6 +390,17 @@ func c02Proj(c *fw.Case) {
 	// must not have rearranged the caller's table
 	if c.Chance(0.3) {
 		o2 := Run(doc, sql, opts...)
+		if innerArrays && o2.OK() {
+			var flat []any
+			for _, inner := range o2.Rows {
+				if in, ok := inner.([]any); ok {
+					flat = append(flat, in...)
+				} else {
+					flat = append(flat, inner)
+				}
+			}
+			o2.Rows = flat
+		}
 		if !o2.OK() || !(len(o2.Rows) == 0 && len(want) == 0) && !val.SameSeq(o2.Rows, want) {
 			d := detail()
 			d["second_run"] = o2.Describe()
@@ -316,6 +412,27 @@ func c02Proj(c *fw.Case) {
 	if len(want) > 0 && computed {
 		c.Nontrivial(sql + "|" + val.Canon(t.Array()))
 	}
+}
+
+// renameKeys renames object keys, at every depth, in place.
+func renameKeys(v any, names map[string]string) any {
+	switch t := v.(type) {
+	case map[string]any:
+		for k, x := range t {
+			x = renameKeys(x, names)
+			if to, ok := names[k]; ok {
+				delete(t, k)
+				t[to] = x
+			} else {
+				t[k] = x
+			}
+		}
+	case []any:
+		for i := range t {
+			t[i] = renameKeys(t[i], names)
+		}
+	}
+	return v
 }
 
 func keysOf(m map[string]any) []string {
